@@ -34,6 +34,9 @@ def run(ctx):
         ctx.guard(consumers.consumers, ctx, cfg, fs, 'S.search')
         ctx.guard(consumers.accept_sets, ctx, cfg, fs, 'M.matcher')
         ctx.guard(c07.ledger_only, ctx, cfg, fs, 'I.index-opaque')
+        ctx.guard(consumers.ledger_callers, ctx, cfg, fs, 'O.own-items')
+        import c06
+        ctx.guard(c06.loop_conditions, ctx, cfg, fs, 'L.repetition')
         ctx.guard(c08.keep_only, ctx, lambda: c09.tokenizer(ctx, cfg, fs), lambda o: 'marker-' in o.key, 'T.separator')
         import c10
         ctx.guard(c08.keep_only, ctx, lambda: c10.info(ctx, cfg, fs), lambda o: True, 'H.help-version-order')
